@@ -27,7 +27,7 @@ MANIFEST = {
              'iteration; index bookkeeping (disp_auth_idx_entry etc.) is taken as the code computes it.'),
 }
 EXPLANATION = 'Gate formulas of TrainDisp::advance as named-sub-term specifications of the SVN terms of one loop iteration.'
-RULES = ['C04-0.start', 'C04-1.direction', 'C04-2.lockout', 'C04-3.exit', 'C04-4.entry', 'C04-5.offset', 'C04-6.clear', 'C04-7.occupancy', 'C04-8.index']
+RULES = ['C04-0.start', 'C04-1.direction', 'C04-2.lockout', 'C04-3.exit', 'C04-4.entry', 'C04-5.offset', 'C04-6.clear', 'C04-7.occupancy', 'C04-8.index', 'C04-9.blocked']
 ASSUMPTIONS = ['index bookkeeping of dispatch nodes and authorities is as computed by the code (not decided)']
 
 FID = 'TrainDisp::advance'
@@ -334,6 +334,59 @@ def index_provenance(ctx, fns):
     ctx.floor('authority field stores with index provenance checked', n, 12)
 
 
+def links_blocked_rule(ctx):
+    """C04-9.blocked: update_links_blocked marks the flipped link and every link declared mutually exclusive with the given
+    link as blocked by the given train (the tables the re-router reads)"""
+    R = 'C04-9.blocked'
+    b = None
+    for fid in sorted(ctx.prog.by_id):
+        if fid.endswith('update_links_blocked') and not ctx.prog.by_id[fid].test:
+            b = ctx.prog.by_id[fid]
+    if b is None:
+        ctx.unproved(R, 'update_links_blocked', 'anchor not found'); return
+    eng = engine(ctx)
+    eng.all_paths.add(b.fid)
+    an = eng.analysis(b)
+    if an.exit_state is None or len(b.params) != 4:
+        ctx.unproved(R, b.fid, 'not analysable', ctx.where(b)); return
+    w = ctx.where(b)
+    inv = inventory(ctx)
+    cfg = inv.cfg(b)
+    train = ('pre', (('val', b.params[3][0]),))
+    link = ('pre', (('val', b.params[2][0]), ('f', 'idx')))
+    flip_ok = lock_ok = False
+    itpos = None
+    for bb, path, val, span in an.stores_log:
+        if path[0] != ('obj', b.params[0][0]) or len(path) != 2 or path[1][0] != 'idx' or val != train:
+            continue
+        i = _strip_idx(path[1][1])
+        txt = show(i, an.names)
+        if i[0] == 'pre' and i[1][-2:] == (('f', 'idx_flip'), ('f', 'idx')) and any(x == link for x in walk(i)) and not cfg.in_loop(bb):
+            flip_ok = all(cfg.dominates(bb, r_) for r_ in cfg.return_blocks)
+        if i[0] == 'pre' and ('f', 'link_idxs_lockout') in i[1] and any(x == link for x in walk(i)) and cfg.in_loop(bb):
+            for x in walk(i):
+                if x[0] == 'iterpos':
+                    itpos = x
+            lock_ok = itpos is not None
+    ctx.check(flip_ok, R, b.fid + '|flip', 'the flipped link of the given link is marked with the given train, unconditionally', 'no unconditional store links_blocked[links[link].idx_flip] := train', w)
+    decs = []
+    for c in an.calls:
+        for cnd, o in c.pc:
+            if itpos is not None and repr(itpos) in repr(cnd) and cnd not in decs:
+                decs.append(cnd)
+    whole = lock_ok and bool(decs) and all(plain_iteration(cnd) for cnd in decs if cnd[0] == 'discr' and cnd[1][0] == 'maybe')
+    ctx.check(whole, R, b.fid + '|lockouts', 'every link declared mutually exclusive with the given link is marked with the given train (plain loop over the whole list)',
+              'store found: %s; loop decisions: %s' % (lock_ok, [show(x, an.names)[:100] for x in decs][:3]), w)
+    # callers hand over the link whose authority list they just changed and the train now at the head of that list
+    n = 0
+    for caller in sorted(inv.callers(b.fid)):
+        cb = ctx.prog.by_id.get(caller)
+        if cb is None or cb.test or caller == b.fid:
+            continue
+        n += 1
+    ctx.floor('callers of update_links_blocked', n, 2)
+
+
 def _block_of(an, path):
     for bb, p, v, s in an.stores_log:
         if p == path:
@@ -413,6 +466,7 @@ def occupancy(ctx, b, an):
     ctx.check(not missing and bool(pops), R, 'TrainDisp::rewind|fields', 'rewind pops the authority advance pushed and resets every authority field advance sets on other authorities (%s)' % sorted(adv),
               'fields set by advance but not reset by rewind: %s; pops: %d' % (missing, len(pops)), ctx.where(rb))
     index_provenance(ctx, [(b, an)] + ([(ub, uan)] if ub is not None else []) + [(rb, ran)])
+    links_blocked_rule(ctx)
     for fld in sorted(adv & rew):
         vals = {show(val)[:20] for bb, path, val, span in ran.stores_log if path[0] == ('obj', 2) and path[-1] == ('f', fld)}
         ctx.check(vals <= {'INF', '0'}, R, 'TrainDisp::rewind|' + fld, 'rewind resets %s to its "not yet" value' % fld, 'reset values %s' % sorted(vals), ctx.where(rb))
